@@ -133,4 +133,31 @@ impl ModuleLoader {
     pub fn get_module(&self, module_path: &str) -> Option<&ModuleInfo> {
         self.loaded_modules.get(module_path)
     }
+
+    /// The loaded module an import path written in the file being processed refers to.
+    /// Script modules are registered under the file they resolve to, std and native modules
+    /// under their dotted path.
+    pub fn get_module_for(&self, import_path: &[String]) -> Option<&ModuleInfo> {
+        if let Some(info) = self.loaded_modules.get(&import_path.join(".")) {
+            return Some(info);
+        }
+        match self.resolve_module_path(import_path) {
+            Ok(resolution) => self
+                .loaded_modules
+                .get(&Self::module_key(&resolution, import_path)),
+            Err(_) => None,
+        }
+    }
+
+    /// Identity of a module: the canonical file for scripts (however the import is spelled and
+    /// wherever it is written), the dotted path for native modules.
+    pub(crate) fn module_key(
+        resolution: &aelys_modules::resolution::ModuleResolution,
+        actual_path: &[String],
+    ) -> String {
+        match resolution.kind {
+            aelys_modules::resolution::ModuleKind::Script => resolution.path.display().to_string(),
+            aelys_modules::resolution::ModuleKind::Native => actual_path.join("."),
+        }
+    }
 }
